@@ -48,6 +48,10 @@ CLAIMED = {
             'scaled_integer / wide to_chars and operator<< not claimed'),
     'C14': ('integer text: the characters written by to_chars are the canonical decimal numeral of exactly the value (length, sign, every digit through a ghost index) for all values of 8/16-bit (quick) and 32-bit (thorough) integers', '5 C14',
             'scaled_integer text, 64-bit and wide integers, to_string/operator<< not claimed'),
+    'C15': ('BOUNDED stand-in, not a proof: run-time cnl::_impl::parse<int64_t>(char const*) (the algorithm the literal operators evaluate at compile time: strlen, scan_string, scan_base, scan_msb, parse_string and the digit/scale lambdas, '
+            'all real extracted bodies) returns exactly the value the token denotes for every well-formed decimal / hexadecimal / octal / binary token, positive and negative, of at most 6/5/6/8 digits (quick) and 10/8/10/16 digits (thorough), '
+            'all loops closed by complete unwinding for that bound; requires/ensures enforced by the harness (assume/assert) because DFCC instrumentation of the function-pointer dispatch ran out of memory', '5 C15',
+            'NOT covered: the literal operators _c/_cnl/_cnl2/_wide and constant<>-driven deduction themselves (compile-time only: no function remains in the IR), digit separators, fractional parts, tokens beyond the bound (chunk boundaries not crossed), frame condition', 'model_checking'),
     'C16': ('fraction: rational-value postconditions for + - * / and the six comparisons (8/16-bit components), reduce / canonical / std::hash for all int8_t fractions '
             '(std::gcd unwound completely), conversion to float', '5 C16', '>= 32-bit reduce/hash not claimed; multiplication abstracted as an uninterpreted function for the relational clauses'),
     'C18': ('every bit/digit utility of cnl/bit.h and cnl/numeric.h at each width and under both preprocessor configurations carries a contract stating the C++20 <bit> definition as a closed '
@@ -58,7 +62,7 @@ CLAIMED = {
 }
 
 NOT_APPLICABLE = {
-    'C15': 'literals, CTAD and constant<>-driven deduction exist only at compile time: clang folds them, the IR holds only the resulting constant, so there is no function to put a contract on; run-time parse() not yet built',
+    'C15': 'literals, CTAD and constant<>-driven deduction exist only at compile time: clang folds them, the IR holds only the resulting constant, so there is no function to put a contract on (the run-time parse() algorithm is checked, bounded, under the C15 claim)',
     'C17': 'the mediant search is an unbounded loop whose exit and integer intermediates are controlled by floating-point comparisons, divisions and products; no inductive argument within CBMC\'s bit-level float encoding, unrolling is beyond every back end here; long double inputs are x87',
     'C20': 'the accuracy bound is against a transcendental function: only an extensional table spec is possible (8/16-bit), not built; the constants are closed compile-time terms with no inputs',
 }
@@ -67,7 +71,8 @@ NOT_APPLICABLE = {
 def main():
     checks = []
     for pid in sorted(CLAIMED):
-        text, ref, lim = CLAIMED[pid]
+        text, ref, lim = CLAIMED[pid][:3]
+        cat = CLAIMED[pid][3] if len(CLAIMED[pid]) > 3 else 'proof'
         checks.append({
             'property_id': pid,
             'quick_cmd': 'python3 vp.py check %s --tier quick' % pid,
@@ -75,7 +80,7 @@ def main():
             'evidence_file': '/verif/evidence/%s.json' % pid,
             'replay_cmd_template': 'python3 vp.py replay {path}',
             'engine': 'vp',
-            'level_claimed': {'category': 'proof', 'text': text, 'design_ref': 'DESIGN.md section ' + ref},
+            'level_claimed': {'category': cat, 'text': text, 'design_ref': 'DESIGN.md section ' + ref},
             'level_note': NOTE + lim,
             'technique': TECH,
         })
